@@ -53,7 +53,7 @@ Qed.
 (* the value as parsed, before resolve_strings: string offsets are still numbers *)
 Definition raw_meaning (v : fval) : dval :=
   match v with
-  | FV_line_strp off _ | FV_strp off _ => DInt off
+  | FV_line_strp off _ | FV_strp off _ | FV_strp_sup off _ | FV_GNU_strp_alt off _ => DInt off
   | _ => meaning v
   end.
 
@@ -61,7 +61,7 @@ Lemma rd_kind_valid s is64 v e t :
   ms_is64 s = is64 -> enc_fval (ms_le s) is64 v e ->
   rd_kind s (spec_form_kind (form_of v)) (e ++ t) = Ok (raw_meaning v, t).
 Proof.
-  intros Hs He. destruct v as [str|off str|off str|n|n|n|n|n|bs|bs];
+  intros Hs He. destruct v as [str|off str|off str|n|n|n|n|n|bs|bs|off str|off str];
     cbn [form_of spec_form_kind rd_kind raw_meaning meaning enc_fval] in *.
   - destruct He as [Hn ->]. rewrite cstring_decode_valid by exact Hn. reflexivity.
   - destruct He as [Ho ->]. unfold offset_size. rewrite Hs. fold (offsz is64).
@@ -77,6 +77,10 @@ Proof.
   - destruct He as (l & Hl & ->). cbn [rd_len]. rewrite <- app_assoc.
     rewrite (block_decode_valid uleb_decode l bs t); [reflexivity|].
     intros t'. apply uleb_decode_valid. exact Hl.
+  - destruct He as [Ho ->]. unfold offset_size. rewrite Hs. fold (offsz is64).
+    rewrite rd_uint_valid by exact Ho. reflexivity.
+  - destruct He as [Ho ->]. unfold offset_size. rewrite Hs. fold (offsz is64).
+    rewrite rd_uint_valid by exact Ho. reflexivity.
 Qed.
 
 (* ---------------------------------------------------------------- association lists *)
